@@ -20,6 +20,7 @@ typedef struct {
     bool watch; bool tripped; int err_class; int after_calls; const char *trip_call;
 } sctx;
 
+static void stream_noop_cb(binson_parser *p, uint16_t next_state, void *ctx) { (void)p; (void)next_state; (void)ctx; }
 static void tr(sctx *c, const char *s, int ret) { if (c->tracing) vb_printf(&c->trace, "%s=%d ", s, ret); }
 
 /* one adaptive traversal; returns the conjunction of init/enter/leave/get_raw results and error NONE at the end.
@@ -32,6 +33,7 @@ static bool traverse(sctx *c, int root_kind, int strategy, vrng *r, bool *inconc
     bool ok = root_kind == K_OBJ ? binson_parser_init_object(p, c->buf, c->n) : binson_parser_init_array(p, c->buf, c->n);
     tr(c, "init", ok);
     if (!ok) return false;
+    if (vrn(r, 5) == 0) { p->cb = stream_noop_cb; p->cb_context = NULL; }      /* an application-installed token callback must not change the verdict */
     if (vrn(r, 4) == 0) {
         /* the same parser object was used before: a walk abandoned somewhere, then reset (which succeeds whenever init did) */
         bool b = root_kind == K_OBJ ? binson_parser_go_into_object(p) : binson_parser_go_into_array(p);
